@@ -421,3 +421,24 @@ Proof.
 Qed.
 Lemma close_enabled : forall c s id, held (cs s id) = true -> closed (cs s id) = false -> exists s', cstep c s (LClose id) = Some s'.
 Proof. intros c s id Hd Cl. cbn. rewrite Hd, Cl. cbn. eauto. Qed.
+
+(* C07: the CLOSE_ERROR frame for a registered channel records exactly one pending error on THAT channel and on no other;
+   the receive() that puts the ENDMARKER back hands a pending error to its caller (RemoteError, not EOFError) and removes it *)
+Lemma close_error_recorded : forall c s s' id w, fin s = false -> wire s = FEnd id KCloseErr :: w -> alive (cs s id) = true ->
+  cstep c s LRecv = Some s' ->
+  errs (cs s' id) = S (errs (cs s id)) /\ (forall j, j <> id -> cs s' j = cs s j) /\ errs_in s' id = S (errs_in s id).
+Proof.
+  intros c s s' id w F W A H. cbn in H. rewrite F, W in H. injection H as <-. cbn. rewrite !fupd_eq. unfold local_close. rewrite A. cbn.
+  repeat split; auto. intros j N. apply fupd_ne. exact N.
+Qed.
+Lemma reput_hands_over_error : forall c s s' t id k, nth_error (thr s) t = Some (CHold id) -> errs (cs s id) = S k ->
+  cstep c s (LReput t) = Some s' ->
+  errs_out s' id = S (errs_out s id) /\ errs (cs s' id) = k /\ eofs s' id = eofs s id.
+Proof.
+  intros c s s' t id k T E H. cbn in H. rewrite T in H. injection H as <-. cbn. rewrite E. rewrite !fupd_eq. cbn. repeat split; reflexivity.
+Qed.
+Lemma reput_eof_without_error : forall c s s' t id, nth_error (thr s) t = Some (CHold id) -> errs (cs s id) = 0 ->
+  cstep c s (LReput t) = Some s' -> eofs s' id = S (eofs s id) /\ errs_out s' id = errs_out s id.
+Proof.
+  intros c s s' t id T E H. cbn in H. rewrite T in H. injection H as <-. cbn. rewrite E. rewrite !fupd_eq. split; reflexivity.
+Qed.
